@@ -124,6 +124,9 @@ def run(pid, tier, seed, rundir, model_run):
                 shared = [rng.pick(NAMES) for _ in range(2)]
                 shared = [x for j, x in enumerate(shared) if not any(x != y and (x.startswith(y + "/") or y.startswith(x + "/")) for y in shared[:j])]
                 same_len = [b"0041\n", b"0042\n", b"0043\n", b"00\n44"]
+                if rng.coin(1, 3):
+                    # one client's tree contains a file named like the conflict copy another client's stale Put would land on
+                    shared.append(f"{shared[0]}.conflict-{blake3_hex([rng.pick(same_len)])[0][:12]}")
                 nclients = rng.range(2, 3)
                 trees = []
                 for c in range(nclients):
